@@ -36,6 +36,7 @@ import (
 	"reflect"
 	"strings"
 	"testing"
+	"time"
 
 	"github.com/osrg/gobgp/v4/pkg/packet/bgp"
 )
@@ -617,9 +618,13 @@ func c14RoundTrip(t *testing.T, o *vOut, p []c14Seg, aggAS uint32, hasAgg bool, 
 	u := m.Body.(*bgp.BGPUpdate)
 	others := c14OtherAttrs(u)
 
-	// --- down ---
+	// --- down ---  (both functions, in the order fsm.go send() calls them)
+	callerSlice := u.PathAttributes // the slice header the caller (the packer) still holds
+	snap := c14Snapshot(callerSlice)
 	UpdatePathAttrs2ByteAs(u)
+	c14CallerSliceCheck(o, callerSlice, snap, "UpdatePathAttrs2ByteAs", detail)
 	UpdatePathAggregator2ByteAs(u)
+	c14CallerSliceCheck(o, callerSlice, snap, "UpdatePathAggregator2ByteAs", detail)
 	var as2 *bgp.PathAttributeAsPath
 	var as4 *bgp.PathAttributeAs4Path
 	var ag2 *bgp.PathAttributeAggregator
@@ -940,6 +945,191 @@ func c14Pair(t *testing.T, o *vOut, r *vRand, a, a4 []c14Seg, has4 bool, as4Firs
 	}
 }
 
+// ---- the caller's attribute slice (shared between the UPDATEs of one packed batch) ----
+
+type c14Snap struct {
+	ident []bgp.PathAttributeInterface // element identity (interface value = pointer)
+	ser   []string                     // serialised octets of each element
+}
+
+func c14Snapshot(sl []bgp.PathAttributeInterface) c14Snap {
+	sn := c14Snap{ident: append([]bgp.PathAttributeInterface{}, sl...)}
+	for _, a := range sl {
+		sn.ser = append(sn.ser, hex.EncodeToString(c14Bytes(a)))
+	}
+	return sn
+}
+
+// the elements of the slice the caller handed in are the same objects with the same octets
+func c14CallerSliceCheck(o *vOut, sl []bgp.PathAttributeInterface, sn c14Snap, fn string, detail any) {
+	for i := range sn.ident {
+		if i >= len(sl) {
+			break
+		}
+		if sl[i] != sn.ident[i] {
+			o.fail("down-mutates-input", map[string]any{"why": fn + " replaced element " + fmt.Sprint(i) + " of the caller's attribute slice (" + fmt.Sprintf("%T", sn.ident[i]) + " -> " + fmt.Sprintf("%T", sl[i]) + ")", "input": detail})
+			return
+		}
+		if got := hex.EncodeToString(c14Bytes(sl[i])); got != sn.ser[i] {
+			o.fail("down-mutates-input", map[string]any{"why": fn + " changed the attribute object at element " + fmt.Sprint(i) + " of the caller's slice in place", "before": sn.ser[i], "after": got, "input": detail})
+			return
+		}
+	}
+}
+
+var c14Peer = &PeerInfo{AS: 65001, LocalAS: 65000, ID: netip.MustParseAddr("192.0.2.9"), LocalID: netip.MustParseAddr("192.0.2.8"), Address: netip.MustParseAddr("192.0.2.9")}
+
+// The realistic sending path: many IPv4 prefixes with ONE attribute set go through the real packer
+// (CreateUpdateMsgFromPaths splits them over several UPDATEs), every UPDATE in turn gets the
+// conversion fsm.go send() applies for a 2-octet peer, is serialised, parsed as the OLD peer's
+// NEW neighbour would get it and reconstructed.  EVERY message must round-trip.
+func c14SplitBatch(t *testing.T, o *vOut, r *vRand, p []c14Seg, aggAS uint32, hasAgg bool, nPrefix int, plen int, ext bool, tag string) {
+	detail := map[string]any{"case": tag, "as_path": c14Fmt(p), "aggregator_as": aggAS, "has_aggregator": hasAgg, "prefixes": nPrefix, "prefix_len": plen, "extended_message": ext}
+	aggAddr := netip.MustParseAddr("192.0.2.14")
+	nh, _ := bgp.NewPathAttributeNextHop(netip.MustParseAddr("192.0.2.1"))
+	attrs := []bgp.PathAttributeInterface{bgp.NewPathAttributeOrigin(0), bgp.NewPathAttributeAsPath(c14Params4(p)), nh, bgp.NewPathAttributeMultiExitDisc(14)}
+	if hasAgg {
+		ag, _ := bgp.NewPathAttributeAggregator(aggAS, aggAddr)
+		attrs = append(attrs, ag)
+	}
+	ribSnap := c14Snapshot(attrs)
+	paths := make([]*Path, 0, nPrefix)
+	for i := 0; i < nPrefix; i++ {
+		v := uint32(i) << (32 - plen)
+		n, _ := bgp.NewIPAddrPrefix(netip.PrefixFrom(netip.AddrFrom4([4]byte{byte(v >> 24), byte(v >> 16), byte(v >> 8), byte(v)}), plen))
+		paths = append(paths, NewPath(bgp.RF_IPv4_UC, c14Peer, bgp.PathNLRI{NLRI: n}, false, attrs, time.Unix(1700000000, 0), false))
+	}
+	// the options a sender passes for a peer without the 4-octet AS capability
+	sopt, popt := &bgp.MarshallingOption{}, &bgp.MarshallingOption{Use2ByteAS: true}
+	if ext {
+		sopt, popt = c14Opt, c14Opt2
+	}
+	msgs := CreateUpdateMsgFromPaths(paths, popt)
+	overflow := false
+	o.stat(fmt.Sprintf("batch_msgs_%d", min(len(msgs), 5)), 1)
+	want := c14ConfedTrans(p)
+	total := 0
+	for i, m := range msgs {
+		u, ok := m.Body.(*bgp.BGPUpdate)
+		if !ok {
+			t.Fatalf("C14 batch: message %d is not an UPDATE", i)
+		}
+		mdetail := map[string]any{"message": i, "of": len(msgs), "batch": detail}
+		callerSlice := u.PathAttributes
+		snap := c14Snapshot(callerSlice)
+		// sender side, as fsm.go sendMessageloop send() does with twoByteAsTrans
+		UpdatePathAttrs2ByteAs(u)
+		c14CallerSliceCheck(o, callerSlice, snap, "UpdatePathAttrs2ByteAs", mdetail)
+		UpdatePathAggregator2ByteAs(u)
+		c14CallerSliceCheck(o, callerSlice, snap, "UpdatePathAggregator2ByteAs", mdetail)
+		// every message of the batch must carry the same conversion (model: down p)
+		var as2 *bgp.PathAttributeAsPath
+		var as4 *bgp.PathAttributeAs4Path
+		var ag2 *bgp.PathAttributeAggregator
+		var ag4 *bgp.PathAttributeAs4Aggregator
+		for _, a := range u.PathAttributes {
+			switch x := a.(type) {
+			case *bgp.PathAttributeAsPath:
+				as2 = x
+			case *bgp.PathAttributeAs4Path:
+				as4 = x
+			case *bgp.PathAttributeAggregator:
+				ag2 = x
+			case *bgp.PathAttributeAs4Aggregator:
+				ag4 = x
+			}
+		}
+		corrupt := func(why string) {
+			cls := "down-shared-slice-corrupts-later-updates"
+			if i == 0 {
+				cls = "down-malformed"
+			}
+			o.fail(cls, map[string]any{"why": why, "input": mdetail})
+		}
+		if as2 == nil {
+			corrupt("AS_PATH missing")
+			continue
+		}
+		ans := c14Fmt(c14FromParams(as2.Value)) + " | "
+		if as4 != nil {
+			ans += c14Fmt(c14From4(as4.Value))
+		} else {
+			ans += "-"
+		}
+		o.ask(ans, "down %s", c14Fmt(p))
+		if hasAgg {
+			a := "-"
+			if ag4 != nil {
+				a = fmt.Sprint(ag4.Value.AS)
+			}
+			if ag2 == nil {
+				corrupt("AGGREGATOR missing")
+				continue
+			}
+			o.ask(fmt.Sprintf("%d %s", ag2.Value.AS, a), "aggdown %d", aggAS)
+		}
+		c14LenCheck(o, u, "down", mdetail)
+		wire, err := m.Serialize(sopt)
+		if err != nil {
+			if strings.Contains(err.Error(), "too long message length") {
+				// the packer filled the UPDATE for the 4-octet form; AS4_PATH / AS4_AGGREGATOR no longer fit
+				overflow = true
+				o.fail("down-grows-update-past-limit", map[string]any{"why": "UPDATE does not fit after the 2-octet conversion: " + err.Error(), "nlris": len(u.NLRI), "input": mdetail})
+			} else {
+				corrupt("serialize: " + err.Error())
+			}
+			continue
+		}
+		// receiver side
+		rm, err := bgp.ParseBGPMessage(wire, popt)
+		if err != nil {
+			corrupt("re-parse with Use2ByteAS: " + err.Error())
+			continue
+		}
+		ru := rm.Body.(*bgp.BGPUpdate)
+		total += len(ru.NLRI)
+		res := c14RunUp(ru)
+		if res.panicked != "" {
+			o.fail("up-panic", map[string]any{"panic": res.panicked, "input": mdetail})
+			continue
+		}
+		c14LenCheck(o, ru, "up", mdetail)
+		if res.as4Left {
+			o.fail("up-leftover", map[string]any{"why": "AS4_PATH or AS4_AGGREGATOR still present", "input": mdetail})
+		}
+		if !c14StrEq(c14Flat(res.segs), c14Flat(want)) {
+			corrupt("AS_PATH not restored: got " + c14Fmt(res.segs) + " want " + c14Fmt(want))
+		}
+		if hasAgg {
+			var got *bgp.PathAttributeAggregator
+			for _, x := range ru.PathAttributes {
+				if g, ok := x.(*bgp.PathAttributeAggregator); ok {
+					got = g
+				}
+			}
+			if got == nil || res.aggErr != nil || got.Value.AS != aggAS || got.Value.Address != aggAddr {
+				g := "lost"
+				if got != nil {
+					g = fmt.Sprint(got.Value.AS, " ", got.Value.Address)
+				}
+				corrupt("AGGREGATOR not restored: got " + g + " want " + fmt.Sprint(aggAS, " ", aggAddr))
+			}
+		}
+	}
+	if total != nPrefix && !overflow {
+		o.fail("down-shared-slice-corrupts-later-updates", map[string]any{"why": fmt.Sprintf("%d prefixes arrived, %d were packed", total, nPrefix), "input": detail})
+	}
+	// the routes in the RIB still hold the attributes they had (they are re-sent to other peers)
+	c14CallerSliceCheck(o, attrs, ribSnap, "conversion of the packed batch", detail)
+	after := c14Snapshot(paths[0].GetPathAttrs())
+	for i := range ribSnap.ser {
+		if i >= len(after.ser) || after.ser[i] != ribSnap.ser[i] {
+			o.fail("down-mutates-input", map[string]any{"why": "attributes of the packed routes changed", "input": detail})
+			break
+		}
+	}
+}
+
 func c14S(typ uint8, as ...uint32) c14Seg { return c14Seg{typ, as} }
 
 func c14Seq(n int, base uint32) c14Seg {
@@ -985,6 +1175,12 @@ func TestVerifC14(t *testing.T) {
 	c14Pair(t, o, r, []c14Seg{}, []c14Seg{c14S(c14CSEQ, 70000)}, true, false, 0, "corpus-pair-empty-aspath")
 	c14Pair(t, o, r, []c14Seg{c14Seq(250, 1), c14S(c14SEQ, 23456, 23456)}, []c14Seg{c14Seq(10, 70000)}, true, false, 0, "corpus-pair-merge-cross-255")
 
+	// split batch to a 2-octet peer: 4-octet ASNs in AS_PATH and AGGREGATOR, 3 UPDATEs
+	c14SplitBatch(t, o, r, []c14Seg{c14S(c14SEQ, 65000, 400000, 300000, 64512)}, 300000, true, 2000, 24, false, "corpus-split-batch")
+	c14SplitBatch(t, o, r, []c14Seg{c14S(c14CSEQ, 65010, 70000), c14S(c14SET, 70001, 3), c14S(c14SEQ, 400000, 5)}, 64999, true, 1700, 24, false, "corpus-split-batch-confed-set")
+	// the same with host routes: the packer fills each UPDATE to the last octet of the 4-octet form
+	c14SplitBatch(t, o, r, []c14Seg{c14S(c14SEQ, 65000, 400000, 300000, 64512)}, 300000, true, 2000, 32, false, "corpus-split-batch-tight")
+
 	// ---- random streams ----
 	nRT, nPair, nValid := 6000, 9000, 6000
 	if o.thorough {
@@ -1001,6 +1197,58 @@ func TestVerifC14(t *testing.T) {
 			o.sample("roundtrip " + c14Fmt(p))
 		}
 		c14RoundTrip(t, o, p, aggAS, hasAgg, "rt")
+	}
+	nBatch := 40
+	if o.thorough {
+		nBatch = 250
+	}
+	for i := 0; i < nBatch; i++ {
+		p := c14GenValid(r, o)
+		hasAgg := r.chance(70)
+		aggAS := uint32(0)
+		if hasAgg {
+			aggAS = c14AS(r, 1)
+			if r.chance(50) {
+				aggAS = c14AS(r, 2)
+			}
+		}
+		ext := r.chance(15)
+		alen := 0
+		for _, sg := range p {
+			alen += 2 + 4*len(sg.as)
+		}
+		// prefix length: i%4 == 3 → /25../32 (5-octet NLRIs, the packer's worst case: UPDATEs are
+		// filled completely); otherwise short prefixes that leave room in every UPDATE
+		plen := r.pick(16, 16, 20, 24)
+		if alen > 200 {
+			plen = 16
+		}
+		tight := i%4 == 3
+		if tight {
+			plen = r.pick(25, 28, 32, 32)
+			o.stat("batch_tight", 1)
+		}
+		per := 5
+		if plen <= 16 {
+			per = 3
+		} else if plen <= 24 {
+			per = 4
+		}
+		limit := 4096
+		if ext {
+			limit = 65535
+		}
+		if alen > 1500 && !ext {
+			continue // little room for NLRIs left (and none for AS4_PATH): not a batch
+		}
+		// enough prefixes for 2..4 UPDATEs
+		room := (limit - 23 - alen - 40) / 5
+		n := room + 1 + r.intn(2*room+room/2)
+		if n >= 1<<plen {
+			n = 1<<plen - 1
+		}
+		_ = per
+		c14SplitBatch(t, o, r, p, aggAS, hasAgg, n, plen, ext, "batch")
 	}
 	for i := 0; i < nPair; i++ {
 		a := c14GenOldPath(r)
